@@ -103,6 +103,12 @@ def stage1(ctx):
                               dict(base, pass_name=f["pass"], pass_invocation_index=f["idx"], check=f["check"], error=f["error"],
                                    expected="well-formed Venom IR after every pass (check_venom + structural SSA/CFG checks)"),
                               key=f"C14:pass-wf:{f['pass']}:{f['check']}:{r['name']}")
+            elif kind == "bool-literal":
+                ctx.violation("failing-input", f"{f['pass']} creates IRLiteral(True/False): the printed IR (`{f['line']}`) is rejected by "
+                              "vyper.venom.parser, so print -> parse is not a fixpoint",
+                              dict(base, pass_name=f["pass"], function=f["fn"], line=f["line"], parser=f["detail"], ir_text=f["text"],
+                                   call="vyper.venom.parser.parse_venom(ir_text)", expected="printed IR re-parses to the same IR"),
+                              key="C14:sccp-bool-literal-not-reparsable")
             elif kind == "roundtrip":
                 if (kind, f["pass"]) in seen_kinds:
                     continue
